@@ -11,6 +11,7 @@ from typing import Any, Dict, List, Optional
 
 import fiddle as fdl
 from fiddle._src import config as config_lib
+from fiddle._src import arg_factory as arg_factory_lib
 from fiddle._src import partial as partial_lib
 from fiddle._src import tagging
 
@@ -145,6 +146,23 @@ def sig_params(fn):
   return out
 
 
+FACTORY = 4000000  # Partial.FACTORY in the Coq model
+
+
+def flatten_partial(p):
+  """(callable, positional args, keywords in effective call order) of a built partial, looking
+  through arg_factory's wrapper and nested partials."""
+  inner = p.func
+  if isinstance(inner, arg_factory_lib._InvokeArgFactoryWrapper):  # pylint: disable=protected-access
+    inner = inner.func
+  if isinstance(inner, functools.partial):
+    fn, ipos, ikw = flatten_partial(inner)
+    kw = dict(ikw)
+    kw.update(p.keywords)
+    return fn, list(ipos) + list(p.args), kw
+  return inner, list(p.args), dict(p.keywords)
+
+
 def sym_name(obj) -> str:
   return getattr(obj, "__qualname__", None) or getattr(obj, "__name__", None) or repr(obj)
 
@@ -193,6 +211,8 @@ class Encoder:
       return f"(ABytes {g_codes(v)})"
     if isinstance(v, tuple) and type(v) is tuple and len(v) == 0:
       return "AEmptyTuple"
+    if isinstance(v, (arg_factory_lib.ArgFactory, partial_lib._BuiltArgFactory)):  # pylint: disable=protected-access
+      return None
     if isinstance(v, type) or callable(v) and hasattr(v, "__qualname__") and not isinstance(
         v, (functools.partial, Recorded)) and not hasattr(v, "view"):
       self.fns.setdefault(sym_name(v), v)
@@ -292,11 +312,19 @@ class Encoder:
           pv = f"(PV {self.ref(val)})"
         items.append(g_pair(g_N(self.intern(name)), pv))
       return f"(NObj {g_N(self.intern(v.fn))} {g_list(items)})", "obj"
+    if isinstance(v, partial_lib._BuiltArgFactory):  # pylint: disable=protected-access
+      return f"(NNamedTuple {g_N(FACTORY)} [({g_N(0)}, {self._factory_ref(v.factory)})])", "factory"
+    if isinstance(v, arg_factory_lib.ArgFactory):
+      f = v.factory
+      if isinstance(f, functools.partial) and f.func is partial_lib._invoke_arg_factories:  # pylint: disable=protected-access
+        return f"(NNamedTuple {g_N(FACTORY)} [({g_N(3)}, {self.ref(f.args[0])})])", "factory"
+      return f"(NNamedTuple {g_N(FACTORY)} [({g_N(2)}, {self._factory_ref(f)})])", "factory"
     if isinstance(v, functools.partial):
-      name = sym_name(v.func)
-      self.fns.setdefault(name, v.func)
-      pos = g_list([self.ref(x) for x in v.args])
-      kw = g_list([g_pair(g_N(self.intern(kk)), self.ref(x)) for kk, x in v.keywords.items()])
+      fn, args, keywords = flatten_partial(v)
+      name = sym_name(fn)
+      self.fns.setdefault(name, fn)
+      pos = g_list([self.ref(x) for x in args])
+      kw = g_list([g_pair(g_N(self.intern(kk)), self.ref(x)) for kk, x in keywords.items()])
       return f"(NPartialObj {g_N(self.intern(name))} {pos} {kw})", "partialobj"
     if isinstance(v, collections.defaultdict):
       f = self.atom(v.default_factory)
@@ -316,6 +344,12 @@ class Encoder:
       atoms = sorted(self.key_atom(x) for x in v)
       return f"(NSet {g_bool(isinstance(v, frozenset))} {g_list(atoms)})", "set"
     return f"(NOpaque {g_N(self.intern('opaque:' + type(v).__name__))})", "opaque"
+
+  def _factory_ref(self, f) -> str:
+    if isinstance(f, functools.partial):
+      return self.ref(f)
+    self.fns.setdefault(sym_name(f), f)
+    return f"(RA (ASym {g_N(self.intern(sym_name(f)))}))"
 
   def heap(self) -> str:
     return g_list(self.nodes)
